@@ -97,10 +97,25 @@ package git
 //@ func ParseReference
 //@   pure
 
-// ---------------------------------------------------------------- git.go (C13, C17) — see below for the full contract
+// ---------------------------------------------------------------- git.go (C13, C17)
+// Every git child process of a scan is built here. Postcondition (C13): the
+// command line starts with the replace-object / graft immunisation and the
+// environment ends with GIT_DIR=<resolved dir> and GIT_GRAFT_FILE=/dev/null
+// (later entries win in os/exec). Precondition (C17, clause 1): only
+// read-only plumbing sub-commands may be spawned; it is checked at each of the
+// call sites in this package.
+//@ spec readOnlyGit(a []string) bool = len(a) >= 1 && (a[0] == "rev-list" || a[0] == "cat-file" || a[0] == "for-each-ref" || a[0] == "rev-parse" || (a[0] == "config" && len(a) >= 2 && (a[1] == "--list" || a[1] == "--get")))
 //@ func (*Repository).GitCommand
+//@   requires readOnlyGit(callerArgs)
 //@   pure
-//@   ensures result != nil
+//@   ensures result != nil && fresh(result)
+//@   ensures len(result.Args) == len(callerArgs) + 4
+//@   ensures result.Args[0] == repo.gitBin
+//@   ensures result.Args[1] == "--no-replace-objects"
+//@   ensures result.Args[2] == "-c" && result.Args[3] == "advice.graftFileDeprecated=false"
+//@   ensures len(result.Env) >= 2
+//@   ensures keyof(result.Env[len(result.Env)-2]) == catkey(keyof("GIT_DIR="), keyof(repo.gitDir))
+//@   ensures result.Env[len(result.Env)-1] == "GIT_GRAFT_FILE=/dev/null"
 
 // ---------------------------------------------------------------- gitconfig.go: GetConfig (C15)
 // A-GIT-CONFIG-Z: the output of `git config --list -z` is a concatenation of
@@ -187,3 +202,67 @@ package git
 //@   pure
 //@   ensures result1 == nil ==> forall r string :: apply(result0, r) == fullMatchK(keyof(pattern), keyof(r))
 //@   ensures result1 != nil ==> result0 == nil
+
+// Combiner: exactly two implementations exist (include, exclude); the
+// precondition makes that closed world explicit at every call site.
+//@ iface Combiner.Combine
+//@   pure
+//@   requires dyntype(self, "git.include") || dyntype(self, "git.exclude")
+//@   ensures dyntype(self, "git.include") ==> forall r string :: apply(result, r) == ((f1 != nil && apply(f1, r)) || apply(f2, r))
+//@   ensures dyntype(self, "git.exclude") ==> forall r string :: apply(result, r) == ((f1 == nil || apply(f1, r)) && !apply(f2, r))
+
+//@ iface Combiner.Inverted
+//@   pure
+//@   requires dyntype(self, "git.include") || dyntype(self, "git.exclude")
+//@   ensures dyntype(self, "git.include") ==> dyntype(result, "git.exclude")
+//@   ensures dyntype(self, "git.exclude") ==> dyntype(result, "git.include")
+
+// ---------------------------------------------------------------- git.go: shallow clones are refused (C13)
+//@ func (*Repository).IsFull
+//@   pure
+//@   call 0 os.Lstat as st
+//@   ensures result0 ==> result1 == nil
+//@   ensures result0 ==> st_reached && st1 != nil
+//@   ensures st_reached && st1 == nil ==> !result0 && result1 == nil
+
+//@ func NewRepositoryFromGitDir
+//@   pure
+//@   call 0 IsFull as full
+//@   ensures result1 == nil ==> result0 != nil && full_reached && full0 && full1 == nil
+//@   ensures result1 == nil ==> result0.gitDir == gitDir
+//@   ensures result1 != nil ==> result0 == nil
+
+// ---------------------------------------------------------------- callers of GitCommand: only read-only sub-commands (C17 clause 1)
+// The obligations of interest are `pre:git.(*Repository).GitCommand` at each
+// call site; nothing else is claimed about these functions here.
+//@ func (*Repository).GitPath
+//@   pure
+//@ func (*Repository).ConfigStringDefault
+//@   pure
+//@ func (*Repository).ConfigBoolDefault
+//@   pure
+//@ func (*Repository).ConfigIntDefault
+//@   pure
+//@ func (*Repository).ResolveObject
+//@   pure
+//@ func (*Repository).NewObjectIter
+//@   pure
+//@ func (*Repository).NewBatchObjectIter
+//@   pure
+//@ func (*Repository).NewReferenceIter
+//@   pure
+
+// ---------------------------------------------------------------- C06: last-matching-rule semantics
+// Induction over the option list, done once over the Combine postconditions:
+// with a = apply(F_k, r), anyM = "some option so far matched r", last = the
+// polarity of the last matching option, p0 = the polarity of the first option:
+// the invariant a == (anyM ? last : !p0) holds after the first option (base,
+// F_0 = nil) and is preserved by one more Combine of either polarity (step).
+//@ lemma last_match_base: forall p0, m bool :: ite(p0, false || m, true && !m) == ite(m, p0, !p0)
+//@ lemma last_match_step: forall a, anyM, last, p0, p, m bool :: a == ite(anyM, last, !p0) ==> ite(p, a || m, a && !m) == ite(anyM || m, ite(m, p, last), !p0)
+
+//@ property C06: (prefixFilter).Filter (inverse).Filter (intersection).Filter (union).Filter (allReferencesFilter).Filter (noReferencesFilter).Filter (regexpFilter).Filter (include).Combine (exclude).Combine (include).Inverted (exclude).Inverted PrefixFilter RegexpFilter lemma/last_match_base lemma/last_match_step
+//@ property C13: (*Repository).GitCommand (*Repository).IsFull NewRepositoryFromGitDir
+//@ property C17: (*Repository).GitCommand (*Repository).GetConfig (*Repository).GitPath (*Repository).ConfigStringDefault (*Repository).ConfigBoolDefault (*Repository).ConfigIntDefault (*Repository).ResolveObject (*Repository).NewObjectIter (*Repository).NewBatchObjectIter (*Repository).NewReferenceIter
+//@ property C13: structural/exec-command-sites
+//@ property C17: structural/exec-command-sites structural/gitcommand-callers structural/no-write-apis
